@@ -45,11 +45,17 @@ pub enum Step {
     /// another document of the same store actor (open, syncing, with its own subscriber) receives an entry, a policy, or
     /// is closed and opened again: nothing of that may reach this document's subscribers
     OtherDoc(u8, u8, u8, u8),
+    /// import the write (true) or the read (false) capability of this document while it is open
+    ImportCapability(bool),
 }
 
 #[derive(Serialize, Deserialize, Clone, Debug)]
 pub struct Case {
     pub steps: Vec<Step>,
+    /// the document is first imported read-only (local writes are refused, remote entries are accepted) until an
+    /// `ImportCapability(true)` step upgrades it - while it is open and has subscribers
+    #[serde(default)]
+    pub start_readonly: bool,
 }
 
 fn key(k: u8) -> Vec<u8> {
@@ -139,8 +145,9 @@ impl Prop for C12 {
             2 => (vec(small(), 0..=6), prop::option::of((0u8..3, 0u8..7))).prop_map(|(v, w)| Step::Session(v, w)),
             1 => (any::<bool>(), vec((any::<bool>(), 0u8..7), 0..=3)).prop_map(|(n, f)| Step::SetPolicy(n, f)),
             3 => (0u8..4, 0u8..3, 0u8..5, 0u8..4).prop_map(|(what, a, k, c)| Step::OtherDoc(what, a, k, c)),
+            2 => any::<bool>().prop_map(Step::ImportCapability),
         ];
-        vec(step, 1..=max).prop_map(|steps| Case { steps }).boxed()
+        (vec(step, 1..=max), prop::bool::weighted(0.3)).prop_map(|(steps, start_readonly)| Case { steps, start_readonly }).boxed()
     }
 
     fn check(ctx: &mut Ctx, c: &Case) -> Outcome {
@@ -208,7 +215,13 @@ fn run(ctx: &mut Ctx, c: &Case, o: &mut Outcome) -> R<()> {
     let ns = nssec.id();
     let h: SyncHandle = act::spawn(Store::memory());
     let res: R<()> = ctx.rt.block_on(async {
-        es(h.import_namespace(nssec.clone().into()).await)?;
+        let mut writable = !c.start_readonly;
+        if c.start_readonly {
+            es(h.import_namespace(iroh_docs::Capability::Read(ns)).await)?;
+            o.class("starts-read-only");
+        } else {
+            es(h.import_namespace(nssec.clone().into()).await)?;
+        }
         for a in 0..3 {
             es(h.import_author(author(a).clone()).await)?;
         }
@@ -273,7 +286,14 @@ fn run(ctx: &mut Ctx, c: &Case, o: &mut Outcome) -> R<()> {
                     let r = h.insert_local(ns, author(*a).id(), key(*k).into(), e.content_hash(), e.content_len()).await;
                     reply_err = r.is_err();
                     single_ok_insert = r.is_ok();
-                    if model.apply(&e).is_some() {
+                    if !writable {
+                        // read-only: the write is refused (C07's clause); here it only matters that nothing is announced
+                        rejected_offer = true;
+                        if r.is_ok() {
+                            o.class("skipped/local-write-on-read-only-succeeded(C07)");
+                            model.apply(&e);
+                        }
+                    } else if model.apply(&e).is_some() {
                         expected.push(Ev { local: true, entry: e, from: [0; 32], status: None, download: false });
                     } else {
                         rejected_offer = true;
@@ -287,7 +307,13 @@ fn run(ctx: &mut Ctx, c: &Case, o: &mut Outcome) -> R<()> {
                     let r = h.delete_prefix(ns, author(*a).id(), key(*k).into()).await;
                     reply_err = r.is_err();
                     single_ok_insert = r.is_ok();
-                    if model.apply(&e).is_some() {
+                    if !writable {
+                        rejected_offer = true;
+                        if r.is_ok() {
+                            o.class("skipped/local-write-on-read-only-succeeded(C07)");
+                            model.apply(&e);
+                        }
+                    } else if model.apply(&e).is_some() {
                         expected.push(Ev { local: true, entry: e, from: [0; 32], status: None, download: false });
                     } else {
                         rejected_offer = true;
@@ -384,7 +410,7 @@ fn run(ctx: &mut Ctx, c: &Case, o: &mut Outcome) -> R<()> {
                                 let e = sign(&nssec, &ESpec { a: *a, k: key(*k), t: clock, c: 0 });
                                 offered.push(e.clone());
                                 let _ = h.delete_prefix(ns, author(*a).id(), key(*k).into()).await;
-                                if model.apply(&e).is_some() {
+                                if writable && model.apply(&e).is_some() {
                                     expected.push(Ev { local: true, entry: e, from: [0; 32], status: None, download: false });
                                 }
                                 o.class("session/local-write-between-messages");
@@ -410,6 +436,17 @@ fn run(ctx: &mut Ctx, c: &Case, o: &mut Outcome) -> R<()> {
                     }
                     let _ = act::drain(&orx);
                     o.class("other-document-activity");
+                }
+                Step::ImportCapability(write) => {
+                    let cap = if *write { iroh_docs::Capability::Write(nssec.clone()) } else { iroh_docs::Capability::Read(ns) };
+                    es(h.import_namespace(cap).await)?;
+                    if *write && !writable {
+                        o.class("upgraded-to-write-while-open");
+                        if slots.iter().any(|s| matches!(s, Slot::Active(..))) {
+                            o.class("upgraded-to-write-while-open-with-subscribers");
+                        }
+                    }
+                    writable = writable || *write;
                 }
                 Step::SetPolicy(nothing_except, filters) => {
                     let p = PSpec { nothing_except: *nothing_except, filters: filters.iter().map(|(exact, k)| FSpec { exact: *exact, bytes: key(*k) }).collect() };
